@@ -1,24 +1,24 @@
 // property C09, harness c09::delta_chain_three
-// failed: attempt to add with overflow @ /repo/src/rrdp.rs; index out of bounds: the length is less than or equal to the given index @ /home/runner/.rustup/toolchains/nightly-2026-08-21-x86_64-unknown-linux-gnu/lib/rustlib/src/rust/library/core/src/slice/index.rs
-// native replay: dev: panic: /repo/src/rrdp.rs:172:24: attempt to add with overflow; release: panic: /repo/src/rrdp.rs:172:24: attempt to add with overflow
+// failed: assertion failed: got == want @ src/c09.rs
+// native replay: dev: panic: src/c09.rs:72:5: assertion `left == right` failed; release: panic: src/c09.rs:72:5: assertion `left == right` failed
 // run: cd /verif && ./replay /verif/replays/C09-delta_chain_three.rs
 /// Test generated for harness `c09::delta_chain_three` 
 ///
-/// Check for `assertion`: "attempt to add with overflow"
+/// Check for `assertion`: "assertion failed: got == want"
 
 #[test]
-fn kani_concrete_playback_delta_chain_three_5739758641129435684() {
+fn kani_concrete_playback_delta_chain_three_4073771421060581290() {
     let concrete_vals: Vec<Vec<u8>> = vec![
-        // 18446744073709551615ul
-        vec![255, 255, 255, 255, 255, 255, 255, 255],
-        // 18446744073709551615ul
-        vec![255, 255, 255, 255, 255, 255, 255, 255],
-        // 18446744073709551614ul
-        vec![254, 255, 255, 255, 255, 255, 255, 255],
+        // 2305843009213693951ul
+        vec![255, 255, 255, 255, 255, 255, 255, 31],
+        // 2305843009213693951ul
+        vec![255, 255, 255, 255, 255, 255, 255, 31],
+        // 2305843009213693953ul
+        vec![1, 0, 0, 0, 0, 0, 0, 32],
         // 1
         vec![1],
-        // 13835110831840296962ul
-        vec![2, 0, 0, 0, 0, 48, 0, 192],
+        // 9223389629040820226ul
+        vec![2, 0, 0, 0, 0, 16, 0, 128],
     ];
     kani::concrete_playback_run(concrete_vals, delta_chain_three);
 }
